@@ -330,3 +330,32 @@ def run(ctx):
                 return
 
     drive.for_each_case(ctx, 'custom-only-type', max(20, ctx.budget // 30), body_custom_only_type, gen=lambda c, r: Ty('int'))
+
+    # bare and Any-parametrised container types: a value of exactly the named class comes back as exactly that class (not as the plain
+    # dict / list it compares equal to), alone, as a field, and through the constructor
+    def body_bare(i, rng, ty, T):
+        import collections as _c
+        import typing as _t
+        OD, DD = _c.OrderedDict, _c.defaultdict
+        leaf = lambda: rng.choice((1, 'a', 2.5, None, True))
+        table = [(list, lambda: [leaf(), leaf()]), (dict, lambda: {'a': leaf()}), (tuple, lambda: (leaf(), leaf())), (set, lambda: {1, 'a'}), (frozenset, lambda: frozenset({2})),
+                 (OD, lambda: OD(b=leaf(), a=leaf())), (DD, lambda: DD(None, {'a': leaf()})), (_c.deque, lambda: _c.deque([leaf()])), (_c.Counter, lambda: _c.Counter('aab')),
+                 (_t.OrderedDict, lambda: OD(z=1, a=2)), (_t.DefaultDict, lambda: DD(None, {'k': [leaf()]})), (_t.Deque, lambda: _c.deque([1, 2])), (_t.Counter, lambda: _c.Counter(a=2)),
+                 (_t.List, lambda: [leaf()]), (_t.Dict, lambda: {'a': [leaf()]}), (_t.Set, lambda: {1}), (_t.FrozenSet, lambda: frozenset({'x'})), (_t.Tuple, lambda: (1, 'a')),
+                 (_t.OrderedDict[_t.Any, _t.Any], lambda: OD(b=1, a=2)), (_t.OrderedDict[str, _t.Any], lambda: OD(b=leaf())), (_t.DefaultDict[str, _t.Any], lambda: DD(None, {'k': leaf()})),
+                 (_t.DefaultDict[_t.Any, _t.Any], lambda: DD(None, {1: leaf()})), (_t.Deque[_t.Any], lambda: _c.deque(['q'])), (_c.ChainMap, lambda: _c.ChainMap({'a': 1}))]
+        TT, mk = rng.choice(table)
+        x = mk()
+        Holder = type(f"BH{next(_serial)}", (env.PaneBase,), {'__annotations__': {'f': TT}, '__module__': __name__})
+        ways = [('convert(x, T)', lambda: env.convert(x, TT)), ('from_data(into_data(x, T), T)', lambda: env.from_data(env.into_data(x, TT), TT)),
+                ('Holder(f=x).f', lambda: Holder(f=x).f), ('Holder.from_data({f: data}).f', lambda: Holder.from_data({'f': env.into_data(x, TT)}).f)]
+        for label, thunk in ways:
+            o = observe(thunk)
+            ctx.count('bare_container_checks')
+            ctx.case(('bare', str(TT)[:40], label[:12], o.kind), nontrivial=True)
+            if o.kind != 'value' or type(o.val) is not type(x) or o.val != x or (isinstance(x, _c.OrderedDict) and list(o.val) != list(x)):
+                ctx.violation('typed-value-is-fixed-point', 'bare', i, {'type': short(TT, 80), 'value': short(x, 120), 'way': label, 'result': o.brief()[:200]},
+                              mech=f"bare-container-not-a-fixed-point:{type(x).__name__}")
+                return
+
+    drive.for_each_case(ctx, 'bare', max(40, ctx.budget // 10), body_bare, gen=lambda c, r: Ty('int'))
